@@ -98,6 +98,23 @@ class LogReqWorld(ReqWorld):
         return logged_step(self, sim, events)
 
 
+from .w_auto import AutoWorld
+
+
+class LogAutoWorld(AutoWorld):
+    def __init__(self, **kw):
+        super().__init__(**kw)
+        self.name = self.name + "/log"
+        install(self)
+
+    def step(self, sim, events):
+        return logged_step(self, sim, events)
+
+
+def make_auto(**kw):
+    return LogAutoWorld(**kw)
+
+
 def make_res(**kw):
     return LogResWorld(**kw)
 
